@@ -451,7 +451,7 @@ func init() {
 	Systems["c19.evidence"] = c19System
 	Checks["C19"] = func(r *evid.Run) {
 		registerStandardExt()
-		dl := deadline(r, 55*time.Second, 20*time.Minute)
+		dl := deadline(r, 120*time.Second, 20*time.Minute)
 		// keyed search to the fixpoint
 		res := exploreBFS(r, "c19.evidence", bfs.Options{Dedup: true, Deadline: dl})
 		// cross-check of the key: every sequence up to the depth, no deduplication
